@@ -188,6 +188,11 @@ func (x *Exec) model(st *State, fr *Frame, dst ssa.Value, callee *ssa.Function, 
 		mine := st.ghostArr("wgmine", SInt)
 		st.Assume(Ge(Select(mine, r), IntLit(0))) // a thread never owns a negative number of tokens
 		st.setGhostArr("wgmine", Store(mine, r, Add(Select(mine, r), args[1].Term)))
+		if x.worder() != nil {
+			if rv := x.recvOperand(fr); rv != nil {
+				x.addWaitOblig(st, waitOblig{"wg", r, x.classOfValue(st, rv, x.argPath(fr, 0)), "a token of " + x.argPath(fr, 0)})
+			}
+		}
 	case "(*sync.WaitGroup).Done":
 		r := x.refOf(args[0])
 		wg := st.ghostArr("wg", SInt)
@@ -206,6 +211,12 @@ func (x *Exec) model(st *State, fr *Frame, dst ssa.Value, callee *ssa.Function, 
 	case "(*sync.WaitGroup).Wait":
 		r := x.refOf(args[0])
 		x.siteAsserts(st, fr, "wgwait:"+x.argPath(fr, 0), pos)
+		if x.worder() != nil {
+			if rv := x.recvOperand(fr); rv != nil {
+				cls := x.classOfValue(st, rv, x.argPath(fr, 0))
+				x.waitCheck(st, "wgwait:"+x.argPath(fr, 0), []waitCase{{cls, "Wait on " + x.argPath(fr, 0)}}, nil, pos)
+			}
+		}
 		x.interfere(st, "WaitGroup.Wait")
 		st.Assume(Eq(Select(st.ghostArr("wg", SInt), r), IntLit(0)))
 		{
@@ -429,10 +440,17 @@ func (x *Exec) lock(st *State, fr *Frame, lockv *Val, read bool, pos token.Pos) 
 		st.Done = true
 		return
 	}
+	class := ""
+	if x.worder() != nil {
+		if rv := x.recvOperand(fr); rv != nil {
+			class = x.classOfValue(st, rv, ap)
+		}
+		x.waitCheck(st, "lock:"+ap, []waitCase{{class, "Lock " + ap}}, nil, pos)
+	}
 	x.siteAsserts(st, fr, "lock:"+ap, pos)
 	x.interfere(st, "Lock "+ap)
 	tc, mon, base, root := x.monitorOf(st, lockv)
-	h := &Held{ID: id, Base: base, TC: tc, Mon: mon, Read: read, Root: root}
+	h := &Held{ID: id, Base: base, TC: tc, Mon: mon, Read: read, Root: root, Class: class}
 	st.Held[id] = h
 	if tc != nil {
 		env := &Env{V: x.V, X: x, St: st, Vars: map[string]*Val{}, Pkg: x.V.P.TPkgs[tc.Pkg], Epoch: st.Epoch}
@@ -1396,6 +1414,9 @@ func (x *Exec) recv(st *State, fr *Frame, i *ssa.UnOp, ch *Val) {
 		ap = "chan"
 	}
 	x.siteAsserts(st, fr, "recv:"+ap, i.Pos())
+	if x.worder() != nil {
+		x.waitCheck(st, "recv:"+ap, []waitCase{{x.classOfValue(st, i.X, ap), "receive from " + ap}}, nil, i.Pos())
+	}
 	x.interfere(st, "recv "+ap)
 	st.Assume(Neq(ch.Term, IntLit(0))) // a nil channel blocks forever
 	et := i.X.Type().Underlying().(*types.Chan).Elem()
@@ -1476,6 +1497,9 @@ func (x *Exec) send(st *State, fr *Frame, i *ssa.Send) {
 	}
 	x.siteAsserts(st, fr, "send:"+ap, i.Pos())
 	x.escapable(st, fr, "send:"+ap, ch.Term, false, i.Pos())
+	if x.worder() != nil {
+		x.waitCheck(st, "send:"+ap, []waitCase{{x.classOfValue(st, i.Chan, ap), "send on " + ap}}, nil, i.Pos())
+	}
 	x.interfere(st, "send "+ap)
 	st.Assume(Neq(ch.Term, IntLit(0)))
 	k := x.site(st, "send:"+ap)
@@ -1576,6 +1600,21 @@ func (x *Exec) escapable(st *State, fr *Frame, site string, ch *Term, inSelect b
 func (x *Exec) selectStmt(st *State, fr *Frame, i *ssa.Select) {
 	k := x.site(st, "select")
 	x.siteAsserts(st, fr, fmt.Sprintf("select#%d", k), i.Pos())
+	if i.Blocking && x.worder() != nil {
+		var cases []waitCase
+		for ci, c := range i.States {
+			ap := accessPath(c.Chan)
+			what := "receive from "
+			if c.Dir != types.RecvOnly {
+				what = "send on "
+			}
+			if ap == "" {
+				ap = fmt.Sprintf("case%d", ci)
+			}
+			cases = append(cases, waitCase{x.classOfValue(st, c.Chan, ap), what + ap})
+		}
+		x.waitCheck(st, "select", cases, nil, i.Pos())
+	}
 	x.interfere(st, fmt.Sprintf("select#%d", k))
 	// result tuple: (index int, recvOk bool, recv_0 ... )
 	tup := i.Type().(*types.Tuple)
